@@ -311,7 +311,7 @@ func (d *D) bin(flavour string) string {
 
 func (d *D) NewSpec(kind, name string, shard, nshards int) Spec {
 	return Spec{Prop: d.ID, Name: name, Kind: kind, Tier: d.Tier, Seed: d.Seed, Shard: shard, NShards: nshards,
-		Dir: d.Out, Flavour: "plain", TimeoutS: 600, Args: map[string]string{}, Replay: nil}
+		Dir: d.Out, Flavour: "plain", TimeoutS: int(d.Pick(240, 900)), Args: map[string]string{}, Replay: nil}
 }
 
 // RunWorkers runs the given specs as child processes, at most par at a time, and merges their results.
